@@ -98,7 +98,9 @@ def generate(tape, tier="quick"):
         elif k == "link":
             same = [u for u in NAMES if CAT[u][0] == CAT[a][0]]
             c = tape.choice(same) if tape.chance(3, 4) else tape.choice(pool)
-            ops.append(["link", a, b, c, tape.choice([1.0, 2.5, 300.0])])
+            # grid form of the link: 0 - no grid, 1 - the same grid at both ends, 2/3 - the consumer uses another layout
+            # of the producer's grid (flipped axis / reversed axes order), so the data is re-arranged AND converted
+            ops.append(["link", a, b, c, tape.choice([1.0, 2.5, 300.0]), tape.choice([0, 0, 1, 2, 3])])
         else:
             ops.append([k, a, b])
     return {"engine": "U", "ops": ops, "clear_first": tape.chance(1, 2)}
@@ -156,8 +158,18 @@ def execute(sc):
             elif k == "link":
                 nlink += 1
                 a, b, c, x = op[1:5]
-                out = Output(name="o", info=Info(time=dt(0), grid=NoGrid(), units=b))
-                inp = Input(name="i", info=Info(time=dt(0), grid=NoGrid(), units=c))
+                gform = op[5] if len(op) > 5 else 0
+                ga = gb = NoGrid()
+                fld_a = fld_b = None
+                if gform:
+                    from ..grids import make_grid, MGrid
+                    spa = {"type": "uniform", "dims": [3, 4], "order": "C", "rev": False, "inc": [True, True], "loc": "cells",
+                           "spacing": [1.0, 2.0], "origin": [0.0, 0.0]}
+                    spb = dict(spa, **({}, {}, {"inc": [True, False]}, {"rev": True, "order": "F"})[gform])
+                    ga, gb = make_grid(spa), make_grid(spb)
+                    fld_a, fld_b = MGrid(spa).field([0.0, 1.0, 0.125]), MGrid(spb).field([0.0, 1.0, 0.125])
+                out = Output(name="o", info=Info(time=dt(0), grid=ga, units=b))
+                inp = Input(name="i", info=Info(time=dt(0), grid=gb, units=c))
                 out >> inp
                 inp.ping()
                 try:
@@ -170,7 +182,7 @@ def execute(sc):
                         v("unit-convert", f"{b}|{c}", f"op {oi}: link {b}->{c} refused although dimensions are equal")
                     continue
                 try:
-                    out.push_data(tools.UNITS.Quantity(x, a), dt(0))
+                    out.push_data(tools.UNITS.Quantity(x if fld_a is None else x + fld_a, a), dt(0))
                     if not compat(a, b):
                         v("unit-convert", f"{a}|{b}", f"op {oi}: pushing {a} data to a {b} output accepted")
                         continue
@@ -181,7 +193,14 @@ def execute(sc):
                 got = inp.pull_data(dt(0))
                 want = conv(conv(x, a, b), b, c)
                 gv = float(np.asarray(got.magnitude).reshape(-1)[0])
-                if abs(gv - want) > 1e-9 * max(1.0, abs(want)):
+                if fld_b is not None:
+                    want_arr = np.vectorize(lambda y: conv(conv(y, a, b), b, c))(x + fld_b)
+                    garr = np.asarray(got.magnitude)
+                    if garr.shape != (1,) + want_arr.shape or not np.allclose(garr[0], want_arr, rtol=1e-9, atol=1e-9):
+                        v("unit-convert", f"{a}|{b}|{c}", f"op {oi}: field in {a} pushed to a {b} output and pulled as {c} on "
+                          f"another layout of the grid (form {gform}): got {garr.reshape(-1)[:3].tolist()}, table gives "
+                          f"{want_arr.reshape(-1)[:3].tolist()}")
+                elif abs(gv - want) > 1e-9 * max(1.0, abs(want)):
                     v("unit-convert", f"{a}|{b}|{c}", f"op {oi}: {x} {a} pushed to a {b} output and pulled as {c}: got {gv}, table gives {want}")
                 if not equiv(str(c), str(c)) or not bool(tools.equivalent_units(got.units, c)):
                     v("unit-convert", f"label|{c}", f"op {oi}: delivered units {got.units}, expected {c}")
